@@ -71,5 +71,6 @@ package yubiattest
 //@   modifies nothing
 //@   ensures result == nil <==> pkcsOK(pub, hash, hashed, sig)
 //@   loop 1:
+//@     invariant k == kOf(pub) && len(em) == k && forall(j, 0 <= j && j < k, em[j] == emAt(pub, sig, j))
 //@     invariant 2 <= i && (ok == 0 || ok == 1)
-//@     invariant ok == 1 <==> (entry(ok) == 1 && forall(j, 2 <= j && j < i, em[j] == 255))
+//@     invariant ok == 1 <==> (entry(ok) == 1 && forall(j, 2 <= j && j < i, emAt(pub, sig, j) == 255))
